@@ -149,6 +149,7 @@ theorem running_frame (s s' : St) (e : Ev) (hi : Inv s) (hs : step s e = some s'
   | relCS b =>
     simp only [step] at hs; split at hs <;> try simp at hs
     split at hs <;> try simp at hs
+    case h_2 => obtain ⟨_, rfl⟩ := hs; rfl
     obtain ⟨_, rfl⟩ := hs
     exact afterRemove_running _ j k
   | selfRelCS a =>
